@@ -6,6 +6,7 @@ import (
 	"encoding/base64"
 	"fmt"
 	"go/types"
+	"math"
 	"net"
 	"strconv"
 	"strings"
@@ -440,6 +441,54 @@ func init() {
 			p.fatal("logrus." + n)
 		}
 		return p.zeroResults(fn), true
+	}
+
+	// ---- math on concrete floats ----
+	pkgIntrinsics["math"] = func(p *Path, c *frame, fn *ssa.Function, a []value) (value, bool) {
+		f := func(i int) float64 { x, _ := a[i].(float64); return x }
+		switch fn.Name() {
+		case "Abs":
+			return math.Abs(f(0)), true
+		case "Floor":
+			return math.Floor(f(0)), true
+		case "Ceil":
+			return math.Ceil(f(0)), true
+		case "Trunc":
+			return math.Trunc(f(0)), true
+		case "Sqrt":
+			return math.Sqrt(f(0)), true
+		case "Max":
+			return math.Max(f(0), f(1)), true
+		case "Min":
+			return math.Min(f(0), f(1)), true
+		case "Mod":
+			return math.Mod(f(0), f(1)), true
+		case "Pow":
+			return math.Pow(f(0), f(1)), true
+		case "Log":
+			return math.Log(f(0)), true
+		case "Exp":
+			return math.Exp(f(0)), true
+		case "IsNaN":
+			return p.tt.Bool(math.IsNaN(f(0))), true
+		case "IsInf":
+			s, _ := concInt(a[1])
+			return p.tt.Bool(math.IsInf(f(0), int(s))), true
+		case "Inf":
+			s, _ := concInt(a[0])
+			return math.Inf(int(s)), true
+		case "NaN":
+			return math.NaN(), true
+		case "Float64bits":
+			return p.tt.Const(64, math.Float64bits(f(0))), true
+		case "Float64frombits":
+			v, ok := conc(a[0])
+			if !ok {
+				panic(p.unsupported("Float64frombits of symbolic value"))
+			}
+			return math.Float64frombits(v), true
+		}
+		return nil, false
 	}
 
 	// ---- native pass-through for pure helpers on concrete arguments ----
